@@ -181,10 +181,15 @@ PatHolds(h, p, v) ==
   CASE p.t = "pdef" -> "t"
     [] p.t = "plit" -> ValEq(h, v, p.v)
     [] p.t = "prange" ->
-         IF v.k # p.lo.k THEN "u"       \* a scrutinee of another kind than a range pattern
-         ELSE LET lo == BinOp(">=", v, p.lo)
-                  hi == BinOp(IF p.incl THEN "<=" ELSE "<", v, p.hi)
-              IN IF ~IsVal(lo) \/ ~IsVal(hi) THEN "u" ELSE T3(lo.v /\ hi.v)
+         \* "contains" is what the relational operators say where they are defined (the same kind, or an integer /
+         \* float mix).  A scrutinee of another kind: left open - except that a byte against an integer range (or
+         \* the reverse) whose number lies outside the bounds is contained under no reading of the documentation.
+         LET lo == BinOp(">=", v, p.lo)
+             hi == BinOp(IF p.incl THEN "<=" ELSE "<", v, p.hi)
+         IN IF IsVal(lo) /\ IsVal(hi) THEN T3(lo.v /\ hi.v)
+            ELSE IF {v.k, p.lo.k} = {"int", "byte"}
+                    /\ (SCmp(ToW(v), ToW(p.lo)) < 0 \/ SCmp(ToW(v), ToW(p.hi)) > 0) THEN "f"
+            ELSE "u"
 AnyPat(h, ps, v) ==
   LET f(acc, p) == IF acc = "t" THEN "t"
                    ELSE LET q == PatHolds(h, p, v) IN IF q = "t" THEN "t" ELSE IF q = "u" \/ acc = "u" THEN "u" ELSE "f"
